@@ -54,9 +54,10 @@ var AssembleInputRegex = regexp.MustCompile(`^\s*##!=<\s*(.*)$`)
 var AssembleOutputRegex = regexp.MustCompile(`^\s*##!=>\s*(.*)$`)
 
 // RuleRxRegex matches a full SecRule line with @rx.
-// Everything up to the start of the regular expression is captured in group 1,
-// the end of the line after the regular expression is captured in group 2.
-var RuleRxRegex = regexp.MustCompile(`(.*"!?@rx )(.*)(" \\)`)
+// Everything up to the start of the regular expression is captured in group 1
+// (up to the first operator marker, the regular expression itself may contain the text `"@rx `),
+// the regular expression in group 2, the end of the line after the regular expression in group 3.
+var RuleRxRegex = regexp.MustCompile(`(.*?"!?@rx )(.*)(" \\)`)
 
 // SecRuleRegex matches any SecRule line.
 var SecRuleRegex = regexp.MustCompile(`\s*SecRule`)
